@@ -1506,18 +1506,24 @@ func (s *manifestStore) updateReferrersIndex(ctx context.Context, subject ocispe
 		}
 
 		// 3. push the updated referrers list using referrers tag schema
-		if len(updatedReferrers) > 0 || s.repo.SkipReferrersGC {
-			// push a new index in either case:
-			// 1. the referrers list has been updated with a non-zero size
-			// 2. OR the updated referrers list is empty but referrers GC
-			//    is skipped, in this case an empty index should still be pushed
-			//    as the old index won't get deleted
+		pushIndex := func() error {
 			newIndexDesc, newIndex, err := generateIndex(updatedReferrers)
 			if err != nil {
 				return fmt.Errorf("failed to generate referrers index for referrers tag %s: %w", referrersTag, err)
 			}
 			if err := s.push(ctx, newIndexDesc, bytes.NewReader(newIndex), referrersTag); err != nil {
 				return fmt.Errorf("failed to push referrers index tagged by %s: %w", referrersTag, err)
+			}
+			return nil
+		}
+		if len(updatedReferrers) > 0 || s.repo.SkipReferrersGC {
+			// push a new index in either case:
+			// 1. the referrers list has been updated with a non-zero size
+			// 2. OR the updated referrers list is empty but referrers GC
+			//    is skipped, in this case an empty index should still be pushed
+			//    as the old index won't get deleted
+			if err := pushIndex(); err != nil {
+				return err
 			}
 		}
 
@@ -1526,6 +1532,14 @@ func (s *manifestStore) updateReferrersIndex(ctx context.Context, subject ocispe
 			return nil
 		}
 		if err := s.repo.delete(ctx, *oldIndexDesc, true); err != nil {
+			if len(updatedReferrers) == 0 {
+				// the old index could not be deleted and nothing has replaced
+				// it: an empty index should be pushed for the same reason as
+				// when referrers GC is skipped
+				if err := pushIndex(); err != nil {
+					return err
+				}
+			}
 			return &ReferrersError{
 				Op:      opDeleteReferrersIndex,
 				Err:     fmt.Errorf("failed to delete dangling referrers index %s for referrers tag %s: %w", oldIndexDesc.Digest.String(), referrersTag, err),
